@@ -543,6 +543,10 @@ func c02Monitored(call ssa.CallInstruction) (bool, []string) {
 	if call.Common().Signature() == nil || ErrResultIndex(call.Common().Signature()) < 0 {
 		return false, nil
 	}
+	if cc := call.Common(); cc.IsInvoke() && isFieldLoad(cc.Value, "Cache") {
+		// the proxy's cache is best-effort: on a cache failure the node is copied from the source instead
+		return false, nil
+	}
 	switch {
 	case n == "(io.Closer).Close":
 		return false, nil
